@@ -46,32 +46,21 @@ def run(ctx, chk):
     for f_ in adt[0]["variants"][0]["fields"]:
         chk.check(R1, f_[2] != "pub" and "Restricted" in f_[2] or f_[2] not in ("pub",), "private:Decoder." + f_[0], "field %s is %s" % (f_[0], f_[2]), "rspirv/binary/decoder.rs")
 
-    R2 = chk.rule("R-ADV", "every statement that advances Decoder.offset by e is reached only under a condition that implies "
-                  "offset + e <= bytes.len()")
-    nadv = 0
-    for mname in ("string",):
-        f = dm[mname]["fn"]
-        for n, conds in sites(f["body"], lambda n: n[0] in ("assignop", "assign") and show(n[1] if n[0] == "assign" else n[2]) == "self.offset"):
-            nadv += 1
-            amount = show(n[3]) if n[0] == "assignop" else show(n[2])
-            ok = False
-            why = "no bounding condition on its path: %s" % conds
-            for c in conds:
-                txt, pol = strip_cond(c)
-                t = txt.replace("WORD_NUM_BYTES", "4")
-                # word(): !(offset >= len || offset + 4 > len)
-                if not pol and re.match(r"^\(self\.offset >= self\.bytes\.len\(\)\) \|\| \(\(self\.offset \+ 4\) > self\.bytes\.len\(\)\)$", t) and amount.replace("WORD_NUM_BYTES", "4") == "4":
-                    ok = True
-                # string(): !(consumed * 4 > remaining.len()) with remaining = &self.bytes[self.offset..]
-                m = re.match(r"^\((\w+) \* 4\) > (\w+)\.len\(\)$", t)
-                if not pol and m and amount.replace("WORD_NUM_BYTES", "4") == "(%s * 4)" % m.group(1):
-                    rem = m.group(2)
-                    if any(show_stmt(s) == "let %s = &self.bytes[self.offset..];" % rem for s in f["body"][1]):
-                        ok = True
-            chk.check(R2, ok, "Decoder::%s:offset+=%s" % (mname, amount), "offset advanced by %s with %s" % (amount, why), raw.where(mname, "Decoder"),
-                      key="C11:adv:%s" % mname, sample=conds)
-    chk.floor(R2, "offset advances", nadv, 1)
-    chk.ok(R2, "Decoder::word:advance-bounded(by R-WORD's interpretation: an advance outside the >= 4 bytes class is reported as a panic path)")
+    from . import stringx as sx
+    R2 = chk.rule("R-ADV", "in every evaluated state (buffer with 0..13 bytes left, limit none or 0..4 words, every position of the first NUL) "
+                  "no request slices or indexes beyond the buffer, underflows the limit, or leaves the offset beyond bytes.len()")
+    nadv = [0]
+
+    def adv(name, out, inst):
+        nadv[0] += 1
+        if "panic" in out:
+            chk.bad(R2, inst, "Decoder::%s panics: %s" % (name, out["panic"]), raw.where(name, "Decoder"), key="C11:adv:%s" % name)
+            return False
+        if not (isinstance(out["offset"], int) and out["offset"] <= out["len"]):
+            chk.bad(R2, inst, "Decoder::%s leaves the offset at %s in a buffer of %s bytes" % (name, out["offset"], out["len"]), raw.where(name, "Decoder"),
+                    key="C11:adv:%s" % name)
+            return False
+        return True
 
     R3 = chk.rule("R-WORD", "word(), abstractly interpreted over limit in {none, zero, positive} x remaining bytes in {0, 1..3, >= 4}: limit "
                   "exhausted -> Err(LimitReached(offset)), nothing consumed; fewer than four bytes left -> Err(StreamExpected(offset)), offset "
@@ -128,45 +117,74 @@ def run(ctx, chk):
         except Anchor as ex:
             good, what = False, "not analysable: %s" % ex
         chk.check(R4, good, "set_limit(limit=%s)" % lim, what, raw.where("set_limit", "Decoder"))
-    sf = dm["string"]["fn"]
     WS = raw.where("string", "Decoder")
-    body = [show_stmt(s) for s in sf["body"][1]]
-    txt = " ".join(body).replace("WORD_NUM_BYTES", "4")
-    # window
-    win_ok = "let remaining = &self.bytes[self.offset..];" in txt and \
-        re.search(r"Some\((\w+)\) if \(\1 <= \(remaining\.len\(\) / 4\)\) => \{ \(&remaining\[\.\.\(\1 \* 4\)\], true\) \}", txt) is not None and \
-        "_ => (remaining, false)" in txt
-    chk.check(R4, win_ok, "string:window", "scan window is not min(limit*4, remaining bytes): %s" % txt[:300], WS, key="C11:string-window")
-    scan = re.search(r"let (\w+) = slice\.iter\(\)\.position\(\|&c\| \(c == 0\)\)\.ok_or\(if limited \{ Error::LimitReached\(\(self\.offset \+ slice\.len\(\)\)\) \} else \{ Error::StreamExpected\(self\.offset\) \}\)\?;", txt)
-    chk.check(R4, scan is not None, "string:terminator-search", "terminator search / error selection is %s" % txt[300:700], WS)
-    charge = re.search(r"if let Some\(ref mut (\w+)\) = self\.limit \{ \*\1 -= consumed_words; \}", txt)
-    chk.check(R4, charge is not None, "string:limit-charged", "the limit is not charged with the consumed words", WS, key="C11:string-charge")
-    chk.check(R4, scan is not None and ("let consumed_words = ((%s / 4) + 1);" % scan.group(1)) in txt, "string:consumed=first_null/4+1",
-              "consumed words formula not found", WS)
-    chk.check(R4, scan is not None and ("str::from_utf8(&slice[..%s])" % scan.group(1)) in txt and body[-1] == "Ok(result.to_string())", "string:returns-bytes-before-NUL",
-              "returned string is not the UTF-8 of the bytes before the terminator", WS)
-    # failure paths of string() do not move the offset: the single advance comes after every `?`/return
-    adv_i = [i for i, t in enumerate(body) if t.startswith("self.offset +=")]
-    last_fail = max([i for i, t in enumerate(body) if "?" in t or "return Err" in t] + [-1])
-    chk.check(R4, len(adv_i) == 1 and adv_i[0] > last_fail, "string:no-advance-before-failure", "statements: %s" % [t[:50] for t in body], WS)
+    nstr = 0
+    shown = 0
+    try:
+        for r, lim, pz, u8 in sx.string_cases():
+            inst = "string(bytes left=%d, limit=%s, first NUL at %s, utf8 %s)" % (r, lim, pz, "valid" if u8 else "invalid")
+            out = sx.evaluate(ctx, "string", r, lim, pz, u8)
+            nstr += 1
+            if not adv("string", out, inst):
+                continue
+            ref = sx.string_reference(r, lim, pz, u8)
+            v = out["result"]
+            if isinstance(v, tuple) and v[0] == "err" and isinstance(v[1], tuple) and v[1][0] == "enum" and v[1][2]:
+                got = ("err", v[1][1].split("::")[-1], v[1][2][0], out["offset"], out["limit"])
+            elif isinstance(v, tuple) and v[0] == "ok" and isinstance(v[1], tuple) and v[1][0] == "utf8":
+                got = ("ok", v[1][1], None, out["offset"], out["limit"])
+            else:
+                got = ("?", v)
+            if got == ref:
+                if shown < 6 and ref[0] == "ok" and lim is not None:
+                    chk.ok(R4, inst, sample=sx.describe(out))
+                    shown += 1
+                else:
+                    chk.ok(R4, inst)
+            else:
+                if ref[0] == "ok":
+                    want = "Ok(the %d bytes before the NUL), offset %d, limit %s" % (pz, ref[3], ref[4])
+                    key = "C11:string-ok"
+                else:
+                    want = "Err(%s(%s)), offset and limit unchanged" % (ref[1], ref[2])
+                    key = "C11:string-%s" % ref[1]
+                chk.bad(R4, inst, "string() yields %s, expected %s" % (sx.describe(out), want), WS, key=key)
+    except Anchor as ex:
+        chk.bad(R4, "string()", "string() is not in an analysable shape: %s" % ex, WS, key="C11:string-shape")
+    chk.floor(R4, "string() states", nstr, 1000)
 
-    R5 = chk.rule("R-DELEG", "every typed request reaches the buffer only through word(): exactly one word() call per word consumed "
-                  "(typed enum/mask requests, id, bit32, ext_inst_integer: one; bit64: two; words(n): one per loop iteration)")
+    R5 = chk.rule("R-DELEG", "every typed request reaches the buffer only through word(): the hand-written ones (id, bit32, "
+                  "ext_inst_integer: one word; bit64: two words, low word first; words(n): n words) are evaluated state by state against "
+                  "the composition of word() results, stopping at the first failure; the generated enum/mask requests call word() "
+                  "exactly once and convert its result")
     nde = 0
+    HAND = sx.HAND
+
     for mname, d in sorted(dm.items()):
         if mname in ("word", "string", "new", "offset", "set_limit", "clear_limit", "has_limit", "limit_reached"):
+            continue
+        nde += 1
+        W_ = raw.where(mname, "Decoder")
+        if mname in HAND:
+            try:
+                for inst, out, good, reft in sx.hand_states(ctx, mname):
+                    if not adv(mname, out, inst):
+                        continue
+                    chk.check(R5, good, inst, "%s yields %s; %s" % (mname, sx.describe(out), reft), W_, key="C11:deleg:" + mname)
+            except Anchor as ex:
+                chk.bad(R5, "Decoder::" + mname, "not in an analysable shape: %s" % ex, W_, key="C11:deleg:" + mname)
             continue
         f_ = d["fn"]
         ncalls = sum(1 for n in walk(f_["body"]) if n[0] == "mcall" and path_of(n[1]) == "self" and n[2] == "word")
         direct = [show(n)[:60] for n in walk(f_["body"]) if n[0] in ("index", "field") and show(n).startswith("self.bytes")]
         direct += [show(n)[:60] for n in walk(f_["body"]) if n[0] in ("assign", "assignop") and "self.offset" in show(n[1] if n[0] == "assign" else n[2])]
-        want_n = 2 if mname == "bit64" else 1
-        nde += 1
-        chk.check(R5, ncalls == want_n and not direct, "Decoder::" + mname, "%d word() calls (expected %d); direct buffer/offset access: %s" % (ncalls, want_n, direct),
-                  raw.where(mname, "Decoder"), key="C11:deleg:" + mname)
+        chk.check(R5, ncalls == 1 and not direct, "Decoder::" + mname, "%d word() calls (expected 1); direct buffer/offset access: %s" % (ncalls, direct),
+                  W_, key="C11:deleg:" + mname)
         if d["cls"] in ("enum", "mask"):
-            chk.check(R5, not d["problems"], "Decoder::%s:shape" % mname, "; ".join(d["problems"]), raw.where(mname, "Decoder"))
-        elif d["ret"].replace(" ", "").startswith("Result<spirv::") and mname not in ("id", "bit32", "ext_inst_integer", "words", "bit64") and d["cls"] == "other":
-            chk.bad(R5, "Decoder::%s:shape" % mname, "typed request is not in the audited shape (via %s::%s)" % (d["ty"], d["via"]), raw.where(mname, "Decoder"))
+            chk.check(R5, not d["problems"], "Decoder::%s:shape" % mname, "; ".join(d["problems"]), W_)
+        elif d["ret"].replace(" ", "").startswith("Result<spirv::") and d["cls"] == "other":
+            chk.bad(R5, "Decoder::%s:shape" % mname, "typed request is not in the audited shape (via %s::%s)" % (d["ty"], d["via"]), W_)
     chk.floor(R5, "delegating requests", nde, 61)
+    chk.ok(R2, "states evaluated without an out-of-range access", sample=nadv[0])
+    chk.floor(R2, "evaluated states", nadv[0], 1300)
     chk.analysed.update({"decoder_methods": len(dm), "offset_writers": sorted(wr["offset"]), "limit_writers": sorted(wr["limit"])})
